@@ -253,6 +253,11 @@ static void *led_alloc(size_t n, int origin, int is_realloc)
     lent *e;
     int efence_block = 0;
     (void)is_realloc;
+    if (cjv_in_lib && n > ((size_t)1 << 40)) {
+        /* no input the driver produces justifies a terabyte: a size computation went wrong */
+        cjv_violation("ledger/absurd-request", "allocation request of %zu bytes", n);
+        return NULL;
+    }
     if (cjv_in_lib) {
         led.requests++;
         if (arm_k >= 0) {
@@ -454,6 +459,7 @@ void led_arm_fail(long k) { arm_k = k; arm_seen = 0; arm_fired = 0; }
 long led_armed_requests(void) { return arm_seen; }
 int  led_armed_fired(void) { return arm_fired; }
 void led_disarm(void) { arm_k = -1; }
+int  led_fault_mode(void) { return arm_k > 0; }
 
 /* ------------------------------------------------------------------------------------------ */
 /* guard-page arenas                                                                          */
